@@ -1,7 +1,7 @@
 CONFIG = {
     "id": "C10",
     "coq_targets": ["Gen/FormulasQueue.v", "Proofs/FormulasQueueProofs.v",
-                    "Props/C10.v", "Model/QueueCheck.v", "Model/DrainCheck.v"],
+                    "Props/C10.v", "Model/QueueCheck.v", "Model/DrainCheck.v", "Model/SimCheck.v"],
     "prop_files": ["Props/C10.v"],
     "gen": ["FormulasQueue"],
     "components": [
@@ -15,6 +15,14 @@ CONFIG = {
          "check": "check_case", "monitor": "monitor_case", "model_out": "model_out", "case_type": "case",
          "ops_path": [2],            # (units, action scripts, top-level ops)
          "n_quick": 800, "n_thorough": 20000, "shard": 200},
+        # whole scripted battles (Model/Sim.v, shared with C03 C08 C09 C11: tools/props.d/C03.py describes the
+        # component): the queue windows inside real turns, inserts queued from listeners, and inserts queued BEFORE the
+        # battle starts (one battle in five: a BattleStart script that only queues insert abilities is issued when the
+        # characters have been added) - startBattle must hand them to the first drain
+        {"name": "sim", "modules": ["Base.NumOps", "Model.Turn", "Model.Sim", "Model.SimCheck"],
+         "check": "check_case", "monitor": "monitor_case", "model_out": "monitor_detail",
+         "case_type": "case", "ops_path": None, "mismatch_is_violation": False,
+         "n_quick": 600, "n_thorough": 8000, "shard": 150},
     ],
     "rule": "queue: 8-70 Insert/Pop calls on the real queue.Handler keeping 3-30 tasks pending, priorities from the "
             "real InsertPriority constants plus {0,-1,75,76,2^40} (equal priorities are the norm; 1 case in 8 uses a "
